@@ -59,6 +59,8 @@ func run(repo, prop, tier string, seed int, out, known, cg, arg string) (code in
 		}
 		fmt.Printf("%d roots, %d reachable repo funcs, %d funcs total\n", len(p.Roots), len(p.handlerReachableRepoFuncs()), len(p.AllFuncs))
 		return 0
+	case "taint":
+		return debugTaint(p, arg)
 	case "dump":
 		return debugDump(p, arg)
 	}
